@@ -13,6 +13,20 @@ def c11_classify(inp, out):
 
 HISTORY_SHRINK = {"field_sep": "|", "op_sep": ";", "fields": [2, 1]}
 
+def c15_classify(inp, out):
+    ks = []
+    for op in inp.split(";"):
+        f = op.split(" ")
+        ks.append("op:" + f[0])
+        ks.append("fault:" + ("none" if f[-1] == "-" else ("send" if f[-1] == "x" else "store")))
+        if f[0] == "pickup":
+            n = int(f[2])
+            ks.append("size:" + ("neg" if n < 0 else "zero" if n == 0 else "big" if n > 5 else "small"))
+    for o in out.split("|")[:-1]:
+        ks.append("out:" + o.split(" ")[0])
+    return ks
+
+
 PROPS = {
     "C11": {
         "lean_files": ["AriesVerif/C11/Spec.lean", "AriesVerif/C11/Model.lean", "AriesVerif/C11/Props.lean",
@@ -27,5 +41,21 @@ PROPS = {
         "trusted_base": ["goleveldb, encoding/json, encoding/base64 (modelled observationally)",
                          "formattedstore and LevelDB are modelled observationally (Spec with provider parameters), not line by line"],
         "assumptions": ["single-threaded histories (concurrency is C13)", "query options (paging / sorting) not used"],
+    },
+    "C15": {
+        "lean_files": ["AriesVerif/C15/Spec.lean", "AriesVerif/C15/Model.lean", "AriesVerif/C15/Props.lean",
+                       "AriesVerif/C15/Drv.lean"],
+        "lake_targets": ["AriesVerif"],
+        "classify": c15_classify,
+        "nontrivial": lambda inp, out: "batch " in out and "batch -" not in out.replace("batch -|", ""),
+        "shrink": {"field_sep": "|", "op_sep": ";", "fields": [0]},
+        "thorough_seeds": 3,
+        "rule": "seeded histories of add / status-request / batch-pickup (sizes 0, negative, larger than the inbox) for 1-3 "
+                "recipients; two thirds of the histories inject single faults (i-th storage call of an op, or the send); "
+                "non-trivial = at least one non-empty batch was handed out; distinct (input, outcome) pairs",
+        "trusted_base": ["mock outbound dispatcher and fault-injecting store of the harness",
+                         "encoding/json of the inbox document (modelled as the list + count it carries)"],
+        "assumptions": ["handlers are driven synchronously through the verif hook (goroutine dispatch of HandleInbound is C13/C03)",
+                        "single fault per operation, as the property quantifies"],
     },
 }
